@@ -195,6 +195,22 @@ func init() {
 		}
 		return TupleVal{bv(e.tt.Int(v)), IfaceVal{}}
 	})
+	reg(sdkT+"MaxInt", func(e *Exec, a []Value) Value {
+		x, y := e.big(a[0]), e.big(a[1])
+		return bv(e.tt.Ite(e.tt.IntCmp("<", x, y), y, x))
+	})
+	reg(sdkT+"MinInt", func(e *Exec, a []Value) Value {
+		x, y := e.big(a[0]), e.big(a[1])
+		return bv(e.tt.Ite(e.tt.IntCmp("<", x, y), x, y))
+	})
+	reg(sdkT+"MaxDec", func(e *Exec, a []Value) Value {
+		x, y := e.big(a[0]), e.big(a[1])
+		return bv(e.tt.Ite(e.tt.IntCmp("<", x, y), y, x))
+	})
+	reg(sdkT+"MinDec", func(e *Exec, a []Value) Value {
+		x, y := e.big(a[0]), e.big(a[1])
+		return bv(e.tt.Ite(e.tt.IntCmp("<", x, y), x, y))
+	})
 	reg(sdkT+"OneDec", func(e *Exec, a []Value) Value { return bv(e.tt.Int(prec)) })
 	reg(sdkT+"ZeroDec", func(e *Exec, a []Value) Value { return bv(e.tt.Int64(0)) })
 	reg(sdkT+"ZeroInt", func(e *Exec, a []Value) Value { return bv(e.tt.Int64(0)) })
